@@ -116,6 +116,9 @@ static void run_round(uint64_t idx, pv_rng* rng) {
         uint8_t script[19]; memcpy(script, m.secret, 19); script[18] |= (uint8_t)(pv_randn(rng, 4) << 6);
         pv_set_rand_script(script, 19);
         pv_w->time_value = pv_m_birthday_time(m.birthday) + pv_randn(rng, (uint32_t)PV_STEP);
+        /* every seed the library can hold includes the ones it creates while the clock is out of range, broken or in other units:
+         * whatever birthday it stores then, the phrase must carry exactly that seed */
+        if (pv_randn(rng, 8) == 0) { uint64_t t = pv_gen_odd_clock(rng); pv_w->time_value = t; m.birthday = pv_m_birthday_of(t); PV_COUNT("roundtrip.created_at_an_out_of_range_clock", 1); }
         /* high bits of the argument are ignored by contract */
         int st = pv_api_create(m.features | (pv_randn(rng, 2) ? 0xfffffff8u : 0), &s);
         pv_set_rand_prng();
